@@ -1571,6 +1571,16 @@ def _handle(w, dv, op):
     if not hs:
         return None
     h = hs[-1] if int(op["h"]) < 0 else hs[int(op["h"]) % len(hs)]
+    if h is not None:
+        # a handle whose node was deleted / replaced by another kind of node by the owner is
+        # stale: what it does is undefined (IH5 handles are path based), nothing is judged
+        kind = h.get("kind")
+        if kind is None:
+            n = h["node"]
+            kind = h["kind"] = "g" if (hasattr(n, "keys") and hasattr(n, "create_group")) else "d"
+        if w.ref_kind(h["path"]) != kind:
+            w.probe("stale_handle_skipped")
+            return None
     return h
 
 
